@@ -2055,6 +2055,9 @@ impl Lexer<'_> {
             '%' => {
                 match self.cursor.peek_next() {
                     '*' => {
+                        // A macro comment right after a possible arg name: the name can
+                        // no longer be extended, so the checkpoint set before it is stale
+                        self.clear_checkpoint();
                         self.start_token();
                         self.lex_macro_comment();
                     }
